@@ -66,3 +66,35 @@ def model(res, spec_dir, module, cfg_text, name, constants, workers=8, timeout=9
         else:
             raise vlib.Inconclusive("TLC failed on %s:\n%s" % (name, r.get("error", r["out"][-2000:])))
     return r
+
+
+def run_pinned(res, monitor, spec_dir=SEM, sub="seq"):
+    """Known findings pinned by their exact input: each listed scenario is executed and validated strictly.
+    Still rejected with the recorded clause -> KNOWN-FINDING line; rejected with another clause -> VIOLATION;
+    accepted -> noted (the finding no longer reproduces on this tree)."""
+    pins = [f for f in vlib.known_findings()["findings"] if res.prop in f["properties"] and f.get("pinned")]
+    if not pins:
+        return
+    vh = vlib.build_vh()
+    base = os.path.join(vlib.scratch(), "pinned_%s" % res.prop)
+    sp, tp = base + ".scen", base + ".trace"
+    with open(sp, "w") as f:
+        for i, fd in enumerate(pins):
+            f.write(json.dumps(dict(fd["pinned"], tr=i + 1)) + "\n")
+    rc, out = vlib.sh([vh, sub, "-scen", sp, "-out", tp, "-par", "8"], 300)
+    if rc != 0:
+        raise vlib.Inconclusive("driver failed on pinned findings:\n" + out[-2000:])
+    rej, _, _ = vlib.validate(spec_dir, monitor, tp, set())
+    byt = {}
+    for tr, line, code in rej:
+        byt.setdefault(tr, code)
+    for i, fd in enumerate(pins):
+        code = byt.get(i + 1)
+        if code is None:
+            res.notes.append("known finding %s did not reproduce on this tree (its pinned input is now accepted)" % fd["dev"])
+            print("NOTE: known finding %s no longer reproduces" % fd["dev"])
+        elif any(code.startswith(c) for c in fd.get("codes", [code])):
+            res.known[fd["dev"]] = res.known.get(fd["dev"], 0) + 1
+        else:
+            res.violation("pinned input of known finding %s now fails differently: %s (recorded: %s)" % (fd["dev"], code, fd.get("codes")), dict(fd["pinned"], family="pinned"))
+    res.cov["pinned_findings_run"] = len(pins)
